@@ -3,7 +3,7 @@
    w >= 1, every min_periods, every position, both driver bodies.  Statements only.            *)
 From Coq Require Import Reals List.
 From Tevec Require Import Base.Prelude Base.Num Base.XR Spec.Stats Model.Driver Model.Features
-     Proofs.Features.
+     Model.Fdiff Proofs.Features Proofs.Fdiff.
 Import ListNotations.
 
 (* (0) the accumulator never drifts: at emit time of every step it holds exactly the count and the
@@ -143,6 +143,70 @@ Proof.
   apply wma_emit_spec. exact Habs.
 Qed.
 
+(* (6) adjusted skewness and excess kurtosis *)
+Theorem C01_ts_vskew :
+  forall (body : bool) (w : nat) (mp : option nat) (xs : list XR), 1 <= w ->
+    exists out, ts_run (ts_vskew_f w mp) body w xs = Done out /\ length out = length xs /\
+      forall i, i < length xs ->
+        nth_error out i =
+        Some (let V := valid (win w i xs) in
+              if mp_eff mp w 3 <=? length V
+              then (if Rle_dec (popvarR V) EPS then Some 0%R else Some (skewR V)) else None).
+Proof.
+  intros body w mp xs Hw.
+  apply (mom_entry (emit_skew (mp_eff mp w 3))
+           (fun V => if mp_eff mp w 3 <=? length V
+                     then (if Rle_dec (popvarR V) EPS then Some 0%R else Some (skewR V)) else None));
+    [exact Hw|].
+  intros s W HA. apply emit_skew_spec; [exact HA|apply mp_eff_ge].
+Qed.
+
+Theorem C01_ts_vkurt :
+  forall (body : bool) (w : nat) (mp : option nat) (xs : list XR), 1 <= w ->
+    exists out, ts_run (ts_vkurt_f w mp) body w xs = Done out /\ length out = length xs /\
+      forall i, i < length xs ->
+        nth_error out i =
+        Some (let V := valid (win w i xs) in
+              if mp_eff mp w 4 <=? length V
+              then (if Rle_dec (popvarR V) EPS then Some 0%R else Some (kurtR V)) else None).
+Proof.
+  intros body w mp xs Hw.
+  apply (mom_entry (emit_kurt (mp_eff mp w 4))
+           (fun V => if mp_eff mp w 4 <=? length V
+                     then (if Rle_dec (popvarR V) EPS then Some 0%R else Some (kurtR V)) else None));
+    [exact Hw|].
+  intros s W HA. apply emit_kurt_spec; [exact HA|apply mp_eff_ge].
+Qed.
+
+(* (7) fractional difference (plain family, finite series): weights (-1)^k C(d,k) on the k-th most
+   recent element of the window, also during warm-up *)
+Theorem C01_ts_fdiff :
+  forall (body : bool) (d : R) (w : nat) (rs : list R), 1 <= w ->
+    exists out, ts_fdiff body (Some d) w (fun x : XR => x) (map Some rs) = Done out /\
+      length out = length rs /\
+      forall i, i < length rs -> nth_error out i = Some (Some (fdiffR d (win w i rs))).
+Proof. exact ts_fdiff_spec. Qed.
+
+(* (8) the plain family ts_sum .. ts_kurt, ts_ewm, ts_wma is the same code with a never-null
+   dictionary; on null-free input it coincides with the null-aware family, so (1)-(6) apply *)
+Theorem C01_plain_family_moments :
+  forall (emit : @mom XR -> XR) (body : bool) (w : nat) (rs : list R), 1 <= w ->
+    ts_run (mom_feat (DT := IsNone_never) emit) body w (map Some rs)
+    = ts_run (mom_feat (DT := IsNoneXR) emit) body w (map Some rs).
+Proof. exact plain_family_mom. Qed.
+
+Theorem C01_plain_family_ewm :
+  forall (w : nat) (mp : option nat) (body : bool) (rs : list R), 1 <= w ->
+    ts_run (ts_vewm_f (DT := IsNone_never) w mp) body w (map Some rs)
+    = ts_run (ts_vewm_f (DT := IsNoneXR) w mp) body w (map Some rs).
+Proof. exact plain_family_ewm. Qed.
+
+Theorem C01_plain_family_wma :
+  forall (w : nat) (mp : option nat) (body : bool) (rs : list R), 1 <= w ->
+    ts_run (ts_vwma_f (DT := IsNone_never) w mp) body w (map Some rs)
+    = ts_run (ts_vwma_f (DT := IsNoneXR) w mp) body w (map Some rs).
+Proof. exact plain_family_wma. Qed.
+
 (* non-vacuity: a window with a null, warm-up and expiry *)
 Example C01_example_mean :
   exists out, ts_run (ts_vmean_f (A := XR) 2 (Some 1)) false 2 [Some 1%R; None; Some 3%R] = Done out
@@ -161,3 +225,9 @@ Print Assumptions C01_eps_floor_bounded.
 Print Assumptions C01_ts_vewm.
 Print Assumptions C01_ewm_is_weighted_average.
 Print Assumptions C01_ts_vwma.
+Print Assumptions C01_ts_vskew.
+Print Assumptions C01_ts_vkurt.
+Print Assumptions C01_ts_fdiff.
+Print Assumptions C01_plain_family_moments.
+Print Assumptions C01_plain_family_ewm.
+Print Assumptions C01_plain_family_wma.
